@@ -618,7 +618,7 @@ let () =
           (match !tm_ops, !prev_ps with
            | [ ([ "GC" ], r) ], Some pp when not (starts_with r "err") ->
              stat "c05t_gc_replayed" 1;
-             (match Tmgr.check_gc ~tcap pp ps with Some (k, m) -> fail step "C05" k m | None -> ())
+             (match Tmgr.check_gc ~tcap ~gcall ~res:r pp ps with Some (k, m) -> fail step "C05" k m | None -> ())
            | [ ([ "CONSTN"; dst; v ], r) ], Some pp when (not (starts_with r "err")) || starts_with r "err oom" ->
              stat "c05t_get_replayed" 1;
              (match Tmgr.check_get ~tcap ~kname ~gcall ~oom:(starts_with r "err oom") pp ps (slot_of dst) v with
